@@ -3,6 +3,7 @@ package runtime
 // Shared helpers of the verification harnesses of package runtime.
 
 import (
+	"github.com/GuanceCloud/platypus/pkg/errchain"
 	"github.com/GuanceCloud/platypus/internal/verifnd"
 	"github.com/GuanceCloud/platypus/pkg/ast"
 )
@@ -80,15 +81,23 @@ func vScalar(class, L int) (any, ast.DType) {
 	panic("vScalar: class")
 }
 
-// vValue returns a symbolic Inv-value of the class; collections hold 0..N scalar elements
-// of symbolic classes (depth 1).
+// vValue returns a symbolic Inv-value of the class; collections hold 0..N elements
+// (depth 1). With harness parameter EC=1 the elements are scalars of symbolic class,
+// otherwise arbitrary integers.
 func vValue(class, L, N int) (any, ast.DType) {
+	elem := func() any {
+		if verifnd.Param("EC", 0) == 1 {
+			v, _ := vScalar(verifnd.Int(vcNil, vcString), L)
+			return v
+		}
+		return verifnd.Int64()
+	}
 	switch class {
 	case vcList:
 		n := verifnd.Int(0, N)
 		l := make([]any, n)
 		for i := range l {
-			l[i], _ = vScalar(verifnd.Int(vcNil, vcString), L)
+			l[i] = elem()
 		}
 		return l, ast.List
 	case vcMap:
@@ -96,7 +105,7 @@ func vValue(class, L, N int) (any, ast.DType) {
 		m := map[string]any{}
 		names := []string{"k0", "k1", "k2", "k3", "k4"}
 		for i := 0; i < n; i++ {
-			m[names[i]], _ = vScalar(verifnd.Int(vcNil, vcString), L)
+			m[names[i]] = elem()
 		}
 		return m, ast.Map
 	}
@@ -155,3 +164,31 @@ func vLeaf(ctx *Task, in *vInput, name string, v any, t ast.DType, leafKind int)
 	ctx.stackCur.Set(name, v, t)
 	return vIdent(name)
 }
+
+// ---- probe calls: operands whose evaluation is observable ----
+
+var vTrace []int
+
+// vProbe registers a builtin `name` that records id in vTrace and returns (v,t).
+func vProbe(ctx *Task, name string, id int, v any, t ast.DType) *ast.Node {
+	if ctx.funcCall == nil {
+		ctx.funcCall = map[string]FuncCall{}
+	}
+	ctx.funcCall[name] = func(c *Task, e *ast.CallExpr) *errchain.PlError {
+		vTrace = append(vTrace, id)
+		c.Regs.ReturnAppend(v, t)
+		return nil
+	}
+	return ast.WrapCallExpr(&ast.CallExpr{Name: name})
+}
+
+// vOperand builds an operand node of the given kind: 0 literal (where one exists),
+// 1 variable, 2 point key, 3 probe call.
+func vOperand(ctx *Task, in *vInput, name string, id int, v any, t ast.DType, kind int) *ast.Node {
+	if kind == 3 {
+		return vProbe(ctx, "probe_"+name, id, v, t)
+	}
+	return vLeaf(ctx, in, name, v, t, kind)
+}
+
+func vSameFloat(a, b float64) bool { return verifnd.Or(a == b, verifnd.And(a != a, b != b)) }
